@@ -2,7 +2,7 @@ from ast import Attribute, Subscript, Load, NodeVisitor
 
 from .compat import PY2
 from .scope import (FuncScope, Flow, SourceScope, ClassScope,
-                    IMPORT_END_DELIMETERS)
+                    IMPORT_END_DELIMETERS, get_first_body_node_loc)
 from .name import AssignedName, ImportedName
 from .util import (np, get_expr_end, get_indexes_for_target, visitor, get_any_marked_name)
 
@@ -129,7 +129,7 @@ class extract_visitor(NodeVisitor):
         cur = self.flow
 
         body_start = self.make_flow('for', [cur])
-        self.bind_target(body_start, node.target, np(node.body[0]), node.iter)
+        self.bind_target(body_start, node.target, get_first_body_node_loc(node.body) or np(node.body[0]), node.iter)
         self.visit_in_flow(node.target, body_start)
         body = self.visit_in_flow(node.body, body_start)
         body_start.loop(body)
@@ -219,9 +219,9 @@ class extract_visitor(NodeVisitor):
             fh = self.make_flow('except', [cur, body])
             if h.name:
                 if PY2:
-                    fh.add_name(AssignedName(h.name.id, np(h.body[0]), np(h), h.type))
+                    fh.add_name(AssignedName(h.name.id, get_first_body_node_loc(h.body) or np(h.body[0]), np(h), h.type))
                 else:
-                    fh.add_name(AssignedName(h.name, np(h.body[0]), np(h), h.type))  # type: ignore[arg-type]
+                    fh.add_name(AssignedName(h.name, get_first_body_node_loc(h.body) or np(h.body[0]), np(h), h.type))  # type: ignore[arg-type]
             if h.type:
                 fh = self.visit_in_flow(h.type, fh)
             handlers.append(self.visit_in_flow(h.body, fh))
